@@ -318,14 +318,17 @@ def models(ctx):
             ("MC_XmlTree.tla", "MC_XmlTree_decorated.cfg", ["RoundTrip", "FindsOwn", "tree export"], None),
             ("MC_XmlTree.tla", "MC_XmlTree_dev.cfg", [], "RoundTrip")]
     with ThreadPoolExecutor(max_workers=3) as ex:
-        res = list(ex.map(lambda j: tlc.check(j[0], j[1], workers=3, timeout=1800), jobs))
+        # the exploration models run single-threaded: with VIEW, which input reaches an abstract state first (and is
+        # exported) depends on the order of exploration, and the check must be reproducible
+        res = list(ex.map(lambda j: tlc.check(j[0], j[1], workers=1 if "Tree" not in j[0] else 4, timeout=1800), jobs))
     out = []
     for (m, c, props, want), r in zip(jobs, res):
         if want is None:
             if not r["ok"]:
                 raise core.Infra("%s/%s violates %s: the design model is wrong" % (m, c, r["violated"]))
             ctx.add_model(r, m, c, props)
-            out.append(tlc.leaves(r["out"]))
+            # TLC's workers print in any order: sort, so that the seeded choices below are reproducible
+            out.append(sorted(tlc.leaves(r["out"]), key=lambda x: json.dumps(x, sort_keys=True)))
         else:
             if r["ok"] or r["violated"] != want:
                 raise core.Infra("%s with the code's decoder does not violate %s: invariant is vacuous" % (c, want))
